@@ -27,6 +27,11 @@ CLAIMED = {
             "For every applied step: size delta = sum(new-old), every old token outside the map's ranges is found "
             "unchanged at the shifted index, map() agrees; Transform.mapping equals the steps' maps and composes "
             "faithfully.", COMMON_NOTE, "DESIGN.md 5/C03"),
+    "C04": ("explicit-state exploration (E2) of the document state graph under the transform operation menu: every "
+            "transition from every scope document (fresh Transform), two/three-operation histories through one "
+            "Transform incl. rejected operations, plus exhaustive single steps under zoo, F-gen and F-marks schemas",
+            "Bookkeeping alignment (also after rejected operations), replay of recorded steps, exact undo by inverted "
+            "steps in reverse order, inverse maps, on every explored transition / history.", COMMON_NOTE, "DESIGN.md 5/C04"),
     "C05": ("bounded-exhaustive exploration (E1) of to_json -> json.dumps -> json.loads -> from_json for every document, "
             "fragment, slice, mark and step of the pools, with deep mutation of the produced JSON to expose aliasing",
             "Equal object, identical JSON, identical step effect/map on a document pool, no aliasing of live attrs, "
@@ -49,6 +54,10 @@ CLAIMED = {
             "ResolvedPos / Node traversal accessor, compared with a counting reference on the JSON tree",
             "All accessors agree with the flat token picture, in UTF-16 units, including astral text and non-inclusive "
             "marks.", COMMON_NOTE, "DESIGN.md 5/C09"),
+    "C10": ("explicit-state exploration (E2) over a heap of shared live objects: the whole public operation menu is "
+            "run in forward and reverse order on the same objects with value snapshots compared after every operation",
+            "No document, fragment, slice, mark, mark list, step, step map, mapping window or shared singleton changes "
+            "value; Transform and Mapping only append.", COMMON_NOTE, "DESIGN.md 5/C10"),
     "C11": ("bounded-exhaustive exploration (E1) of the seven replace-family operations and replace_step over all "
             "ranges x pool slices/nodes; totality on the zoo, validity + content preservation also on the enumerated "
             "F-gen schema family",
@@ -65,6 +74,14 @@ CLAIMED = {
             "Result equals the reference prediction token by token (marks added/removed exactly in range where "
             "allowed, everything else identical); retyping keeps children the new type can hold.", COMMON_NOTE,
             "DESIGN.md 5/C13"),
+    "C16": ("bounded-exhaustive exploration (E1) of ordered step pairs (all replace steps x all adjacent replace steps, "
+            "all pairs of mark steps) with a differential oracle: merged step vs sequential application on every "
+            "document of a pool",
+            "Whenever merge returns a step it succeeds wherever the pair applies, gives the same document and the same "
+            "size change.", COMMON_NOTE, "DESIGN.md 5/C16"),
+    "C17": ("explicit-state diamond exploration (E2): all pairs of strictly separated steps emitted by the operation "
+            "menu on every scope document (and reachable documents in the thorough tier)",
+            "Rebased steps are not dropped, both orders apply and give equal documents.", COMMON_NOTE, "DESIGN.md 5/C17"),
     "C18": ("bounded-exhaustive exploration (E1) of replace-family edits, lifts and splits inside every isolating "
             "node of every iso/table scope document, with a token prefix/suffix oracle",
             "Tokens up to the node's opening and from its closing on are unchanged and still delimit one node; "
@@ -78,6 +95,16 @@ CLAIMED = {
             "expression; exhaustive wrapper search comparison on the zoo and the F-gen schema family",
             "fill_before sound and complete against an exact search on the derivative automaton; find_wrapping sound, "
             "complete and shortest against a reference BFS; create_and_fill sound.", COMMON_NOTE, "DESIGN.md 5/C15"),
+    "C19": ("bounded-exhaustive exploration (E1) of all HTML forests up to a node bound over a tag/text vocabulary "
+            "(import, parse_slice, five context-restricted rule variants) and of all scope documents (export, "
+            "independent re-read with lxml, round trip)",
+            "Import terminates without exception and yields reference-valid documents; context rules apply exactly "
+            "where the ancestors match; export escapes text/attributes; export->import is the identity on "
+            "whitespace-normal documents.", COMMON_NOTE, "DESIGN.md 5/C19"),
+    "C20": ("explicit-state exploration (E2) of (document, document after one operation) pairs - sharing sub-trees by "
+            "identity - plus all independent pairs of small scopes, each diff call under a watchdog",
+            "find_diff_start / find_diff_end terminate and equal the longest common prefix / suffix of the typed "
+            "token sequences, incl. astral text.", COMMON_NOTE, "DESIGN.md 5/C20"),
 }
 
 NOT_YET = {
